@@ -8,7 +8,7 @@ FILE_PROPS = {
  "rdp.py": ["C01", "C04", "C05", "C06", "C07"], "postprocessing.py": ["C08", "C12", "C13", "C14"],
  "evaluation.py": ["C15", "C19", "C06"], "metrics.py": ["C16", "C15", "C04"], "linear_fit.py": ["C16", "C17", "C01", "C04", "C05", "C15"],
  "multi_knee.py": ["C02"], "curvature.py": ["C02", "C09"], "dfdt.py": ["C02", "C09"], "menger.py": ["C02", "C09", "C17"],
- "lmethod.py": ["C02", "C09"], "kneedle.py": ["C02"], "zmethod.py": ["C10"],
+ "lmethod.py": ["C02", "C09"], "kneedle.py": ["C02", "C08", "C11"], "zmethod.py": ["C10"],
 }
 patches = []
 for d in sys.argv[1:]:
